@@ -7,7 +7,7 @@ use crate::util::*;
 use futures::{FutureExt, StreamExt};
 use litep2p::{
     protocol::notification::{
-        verif::{VerifBounded, VerifPoll, VerifServiceCall},
+        verif::{verif_open_log, VerifBounded, VerifPoll, VerifServiceCall},
         NotificationError, NotificationEvent, NotificationHandle, NotificationSink, ValidationResult,
     },
     PeerId,
@@ -23,17 +23,20 @@ use std::{
 };
 use tokio::io::{AsyncRead, AsyncWrite, ReadBuf};
 
-const NP: usize = 3;
-const HANDSHAKE: [u8; 4] = [1, 2, 3, 4];
+#[path = "c11_hs.rs"]
+mod hs;
+
+pub(crate) const NP: usize = 3;
+pub(crate) const HANDSHAKE: [u8; 4] = [1, 2, 3, 4];
 
 // ---------------------------------------------------------------- scripted byte carrier
 
 #[derive(Default)]
-struct IoState {
-    read_buf: VecDeque<u8>,
-    read_eof: bool,
-    write_err: bool,
-    flush_open: bool,
+pub(crate) struct IoState {
+    pub(crate) read_buf: VecDeque<u8>,
+    pub(crate) read_eof: bool,
+    pub(crate) write_err: bool,
+    pub(crate) flush_open: bool,
     shutdown_gated: bool,
     hs_pushed: bool,
     dropped: bool,
@@ -41,9 +44,9 @@ struct IoState {
 }
 
 #[derive(Clone, Default)]
-struct IoCtl(Arc<Mutex<IoState>>);
+pub(crate) struct IoCtl(pub(crate) Arc<Mutex<IoState>>);
 
-struct ScriptedIo(IoCtl);
+pub(crate) struct ScriptedIo(pub(crate) IoCtl);
 
 impl Drop for ScriptedIo {
     fn drop(&mut self) {
@@ -104,20 +107,26 @@ impl IoCtl {
     fn live(&self) -> bool {
         !self.0.lock().unwrap().dropped
     }
-    fn push_handshake(&self) {
+    pub(crate) fn push_handshake(&self) {
         let mut s = self.0.lock().unwrap();
         s.read_buf.push_back(HANDSHAKE.len() as u8);
         s.read_buf.extend(HANDSHAKE.iter());
         s.hs_pushed = true;
     }
-    fn push_notification(&self) {
+    /// the remote sends a notification; the payload names the stream (ordinal of the Connection task)
+    fn push_notification(&self, gid: usize) {
         let mut s = self.0.lock().unwrap();
-        s.read_buf.extend([3u8, 7, 7, 7]);
+        s.read_buf.extend([3u8, 7, (gid >> 8) as u8, (gid & 255) as u8]);
     }
     fn fail(&self) {
         let mut s = self.0.lock().unwrap();
         s.read_eof = true;
         s.write_err = true;
+    }
+    /// the remote sends a frame whose length prefix exceeds the maximum: the codec reports an error
+    fn push_bad_frame(&self) {
+        let mut s = self.0.lock().unwrap();
+        s.read_buf.extend([0xd0u8, 0x0f]);
     }
 }
 
@@ -137,8 +146,8 @@ struct Run {
     pending_sids: [VecDeque<usize>; NP],
     inbound: [Vec<IoCtl>; NP],
     outbound: [Vec<IoCtl>; NP],
-    /// carriers handed to `Connection` tasks (pair per opened stream)
-    task_ios: [Vec<(IoCtl, IoCtl)>; NP],
+    /// carriers handed to `Connection` tasks (pair per opened stream) and the ordinal of the task
+    task_ios: [Vec<(IoCtl, IoCtl, usize)>; NP],
     /// outbound carriers of all stream periods in the order of the Opened events: (peer, carrier, bytes read so far)
     periods: Vec<(usize, IoCtl, usize)>,
     usink: [Option<NotificationSink>; NP],
@@ -149,6 +158,12 @@ struct Run {
     real_fired: usize,
     /// the case contains a SleepAll: hook-fired Timer events are skipped
     no_hook_timers: bool,
+    /// service calls already taken from the driver in this step (batch commands look at them early)
+    stash_calls: Vec<VerifServiceCall>,
+    /// the order in which the protocol worked through the peers of the batch command of this step
+    batch_order: Option<u64>,
+    /// events and calls of this step are printed by peer (several peers handled in an order nobody controls)
+    by_peer_step: bool,
 }
 
 fn newest_live(v: &[IoCtl]) -> Option<IoCtl> {
@@ -203,9 +218,14 @@ impl Run {
                     let i = self.pidx(&peer);
                     self.events.push([3, i as u64, err_code(&error)]);
                 }
-                NotificationEvent::NotificationReceived { peer, .. } => {
+                NotificationEvent::NotificationReceived { peer, notification } => {
                     let i = self.pidx(&peer);
-                    self.events.push([4, i as u64, 0]);
+                    // the stream the notification was sent on, as written into the payload
+                    let tag = match notification.as_ref() {
+                        [7, hi, lo] => ((*hi as u64) << 8 | *lo as u64) + 1,
+                        _ => 0,
+                    };
+                    self.events.push([4, i as u64, tag]);
                 }
             }
         }
@@ -236,8 +256,9 @@ impl Run {
             let a = newest_live(&self.inbound[i]).unwrap_or_default();
             let b = newest_live(&self.outbound[i]).unwrap_or_default();
             let off = b.0.lock().unwrap().written.len();
+            let gid = self.periods.len();
             self.periods.push((i, b.clone(), off));
-            self.task_ios[i].push((a, b));
+            self.task_ios[i].push((a, b, gid));
         }
     }
 
@@ -331,7 +352,8 @@ impl Run {
             }
             4 => {
                 if let (Some(_), Some(sid)) = (self.connected[p], self.pending_sids[p].pop_front()) {
-                    self.notif.driver().inject_substream_open_failure(sid);
+                    // every SubstreamError variant (the handler only logs it)
+                    self.notif.driver().inject_substream_open_failure_kind(sid, arg as usize, peer);
                 }
             }
             5 => self.notif.driver().inject_dial_failure(peer),
@@ -416,6 +438,15 @@ impl Run {
                 self.settle();
                 self.real_fired += before - self.notif.driver().timers_len();
             }
+            28 => {
+                // NEGOTIATION_TIMEOUT (10 s) of every substream in the HandshakeService really expires, and with
+                // it every 5 s timer armed so far
+                let before = self.notif.driver().timers_len();
+                std::thread::sleep(std::time::Duration::from_millis(10300));
+                self.by_peer_step = true;
+                self.settle();
+                self.real_fired += before;
+            }
             10 => {
                 let _ = self.handle.open_substream(peer).now_or_never();
             }
@@ -424,32 +455,79 @@ impl Run {
             }
             12 => self.handle.verif_force_close(peer),
             13 | 16 | 17 | 18 => {
-                if let Some((a, b)) = self.task_ios[p].last().cloned() {
+                if let Some((a, b, gid)) = self.task_ios[p].last().cloned() {
                     if a.live() || b.live() {
                         if kind == 17 || kind == 18 {
                             // the remote sends a notification on the open stream
-                            a.push_notification();
+                            a.push_notification(gid);
                         }
-                        if (arg != 0 && kind != 17) || kind == 16 {
+                        if (arg & 1 != 0 && kind != 17) || kind == 16 {
                             a.0.lock().unwrap().shutdown_gated = true;
                             b.0.lock().unwrap().shutdown_gated = true;
                         }
                         if kind == 13 || kind == 18 {
-                            a.0.lock().unwrap().read_eof = true;
+                            // what ends the stream: the remote closes its side, sends a frame the codec
+                            // rejects, or the outbound substream reports a write error (not after a last
+                            // notification: the write error would be noticed before the notification is read)
+                            match (arg >> 1) % (if kind == 18 { 2 } else { 3 }) {
+                                0 => a.0.lock().unwrap().read_eof = true,
+                                1 => a.push_bad_frame(),
+                                _ => b.0.lock().unwrap().write_err = true,
+                            }
                         }
                     }
                 }
             }
             14 => {
-                for (a, b) in self.task_ios[p].iter() {
+                // held-back substream closes complete: all of them, or (arg != 0) all but those of the newest task
+                let n = self.task_ios[p].len();
+                for (i, (a, b, _)) in self.task_ios[p].iter().enumerate() {
+                    if arg != 0 && i + 1 == n {
+                        continue;
+                    }
                     a.0.lock().unwrap().shutdown_gated = false;
                     b.0.lock().unwrap().shutdown_gated = false;
                 }
             }
             15 => {
                 if self.connected[p].is_some() {
-                    self.notif.driver().kill_connection_channel(peer);
+                    if arg == 0 {
+                        self.notif.driver().kill_connection_channel(peer);
+                    } else {
+                        self.notif.driver().clog_connection_channel(peer);
+                    }
                 }
+            }
+            26 | 27 => {
+                // one command for several peers
+                let members: Vec<usize> = batch_peers(arg);
+                let ids: Vec<PeerId> = members.iter().map(|i| self.peers[*i]).collect();
+                verif_open_log::enable(true);
+                if kind == 26 {
+                    let _ = self.handle.open_substream_batch(ids.into_iter()).now_or_never();
+                } else {
+                    let _ = self.handle.close_substream_batch(ids.into_iter()).now_or_never();
+                }
+                self.settle();
+                // the order the protocol took the peers in: the order of its open_substream calls (a call
+                // consumes a substream id even when it fails); the other peers' turns leave no trace
+                let calls = self.notif.driver().take_service_calls();
+                let asked: Vec<usize> = verif_open_log::take().iter().map(|q| self.pidx(q)).collect();
+                verif_open_log::enable(false);
+                let mut order: Vec<usize> = Vec::new();
+                for i in asked {
+                    if members.contains(&i) && !order.contains(&i) {
+                        order.push(i);
+                    }
+                }
+                for i in members.iter() {
+                    if !order.contains(i) {
+                        order.push(*i);
+                    }
+                }
+                self.batch_order = Some(batch_code(&order));
+                self.stash_calls.extend(calls);
+                return;
             }
             _ => {}
         }
@@ -461,6 +539,9 @@ impl Run {
     }
 
     fn observe(&mut self, out: &mut Vec<u64>) {
+        if self.batch_order.is_some() || self.by_peer_step {
+            self.events.sort_by_key(|e| e[1]);
+        }
         out.push(self.events.len() as u64);
         for e in self.events.drain(..) {
             out.extend(e);
@@ -474,23 +555,32 @@ impl Run {
                 *off += 3;
             }
         }
-        let calls = self.notif.driver().take_service_calls();
-        out.push((calls.len() + self.rets.len()) as u64);
-        for r in self.rets.drain(..) {
-            out.extend(r);
-        }
+        let mut calls: Vec<VerifServiceCall> = self.stash_calls.drain(..).collect();
+        calls.extend(self.notif.driver().take_service_calls());
+        let mut call_rows: Vec<[u64; 3]> = Vec::new();
         for c in calls {
             match c {
-                VerifServiceCall::Dial(peer) => out.extend([0, self.pidx(&peer) as u64, 0]),
+                VerifServiceCall::Dial(peer) => call_rows.push([0, self.pidx(&peer) as u64, 0]),
                 VerifServiceCall::OpenSubstream(peer, sid) => {
                     let i = self.pidx(&peer);
                     if i < NP {
                         self.pending_sids[i].push_back(sid);
                     }
-                    out.extend([1, i as u64, sid as u64]);
+                    call_rows.push([1, i as u64, sid as u64]);
                 }
-                VerifServiceCall::ForceClose(peer) => out.extend([2, self.pidx(&peer) as u64, 0]),
+                VerifServiceCall::ForceClose(peer) => call_rows.push([2, self.pidx(&peer) as u64, 0]),
             }
+        }
+        if self.batch_order.is_some() || self.by_peer_step {
+            // a batch command / timeouts of several peers: events and calls of the step are printed by peer
+            call_rows.sort_by_key(|r| r[1]);
+        }
+        out.push((call_rows.len() + self.rets.len()) as u64);
+        for r in self.rets.drain(..) {
+            out.extend(r);
+        }
+        for r in call_rows {
+            out.extend(r);
         }
         for p in 0..NP {
             let peer = self.peers[p];
@@ -512,7 +602,30 @@ impl Run {
     }
 }
 
-fn run_case(c: &[u64]) -> Option<Vec<u64>> {
+/// peers of a batch command: base-4 digits of the argument, least significant first, digit = peer + 1
+fn batch_peers(arg: u64) -> Vec<usize> {
+    let mut v = Vec::new();
+    let mut a = arg;
+    while a % 4 != 0 && v.len() < NP {
+        let p = (a % 4 - 1) as usize;
+        if !v.contains(&p) {
+            v.push(p);
+        }
+        a /= 4;
+    }
+    v
+}
+
+fn batch_code(order: &[usize]) -> u64 {
+    order.iter().rev().fold(0u64, |acc, p| acc * 4 + *p as u64 + 1)
+}
+
+/// Runs the case; returns the trace and the case as it was run (the argument of a batch command is
+/// rewritten to the order in which the implementation worked through its peers).
+fn run_case(c: &[u64]) -> Option<(Vec<u64>, Vec<u64>)> {
+    if c.first() == Some(&hs::TAG) {
+        return hs::run_case(c);
+    }
     if c.len() < 4 {
         return None;
     }
@@ -521,7 +634,7 @@ fn run_case(c: &[u64]) -> Option<Vec<u64>> {
         return None;
     }
     for i in 0..nops {
-        if c[4 + 3 * i] > 25 || c[5 + 3 * i] >= NP as u64 {
+        if c[4 + 3 * i] > 28 || c[5 + 3 * i] >= NP as u64 {
             return None;
         }
     }
@@ -529,7 +642,7 @@ fn run_case(c: &[u64]) -> Option<Vec<u64>> {
     let dialable: Vec<PeerId> = (0..NP).filter(|i| mask >> i & 1 == 1).map(|i| peers[i]).collect();
     let cap = (mask >> 3) as usize;
     let lazy = cap > 0;
-    if lazy && (0..nops).any(|i| c[4 + 3 * i] == 19) || !lazy && (0..nops).any(|i| c[4 + 3 * i] == 25) {
+    if lazy && (0..nops).any(|i| matches!(c[4 + 3 * i], 19 | 26 | 27 | 28)) || !lazy && (0..nops).any(|i| c[4 + 3 * i] == 25) {
         return None;
     }
     let (notif, handle) = VerifBounded::new(
@@ -556,8 +669,12 @@ fn run_case(c: &[u64]) -> Option<Vec<u64>> {
         rets: Vec::new(),
         events: Vec::new(),
         real_fired: 0,
-        no_hook_timers: (0..nops).any(|i| c[4 + 3 * i] == 19),
+        no_hook_timers: (0..nops).any(|i| matches!(c[4 + 3 * i], 19 | 28)),
+        stash_calls: Vec::new(),
+        batch_order: None,
+        by_peer_step: false,
     };
+    let mut ran: Vec<u64> = c.to_vec();
     let mut out = vec![1u64];
     for i in 0..nops {
         let (kind, p, arg) = (c[4 + 3 * i], c[5 + 3 * i] as usize, c[6 + 3 * i]);
@@ -565,7 +682,7 @@ fn run_case(c: &[u64]) -> Option<Vec<u64>> {
         if !ok {
             // debug_assert!(false) / Poisoned survivor: the protocol is stuck
             out.push(2);
-            return Some(out);
+            return Some((out, ran));
         }
         out.push(1);
         if lazy {
@@ -573,8 +690,12 @@ fn run_case(c: &[u64]) -> Option<Vec<u64>> {
         } else {
             run.observe(&mut out);
         }
+        if let Some(code) = run.batch_order.take() {
+            ran[6 + 3 * i] = code;
+        }
+        run.by_peer_step = false;
     }
-    Some(out)
+    Some((out, ran))
 }
 
 // ---------------------------------------------------------------- generator
@@ -602,7 +723,20 @@ fn random_op(rng: &mut Rng, slow: bool) -> (u64, u64) {
         99 => rng.pick(&[15u64, 20, 21, 22, 23, 24]),
         _ => 15,
     };
-    let arg = if kind == 13 || kind == 18 { (slow && rng.chance(50)) as u64 } else { arg };
+    let arg = match kind {
+        // bit 0: the substream closes are held back; above: what ends the stream (EOF, error frame, write error)
+        13 | 18 => (slow && rng.chance(50)) as u64 + 2 * rng.pick(&[0u64, 0, 0, 1, 2]),
+        4 => rng.below(8),
+        15 => rng.chance(30) as u64,
+        _ => arg,
+    };
+    // now and then one command for several peers
+    if rng.chance(3) {
+        let set: Vec<usize> = (0..NP).filter(|_| rng.chance(60)).collect();
+        if !set.is_empty() {
+            return (if rng.chance(70) { 26 } else { 27 }, batch_code(&set));
+        }
+    }
     (kind, arg)
 }
 
@@ -661,7 +795,7 @@ fn peer_script(rng: &mut Rng, auto_accept: bool, slow: bool) -> Vec<(u64, u64)> 
             }
             continue;
         }
-        match rng.below(6) {
+        match rng.below(7) {
             0 => s.push((11, 0)),
             1 => s.push((13, 0)),
             2 => {
@@ -669,7 +803,24 @@ fn peer_script(rng: &mut Rng, auto_accept: bool, slow: bool) -> Vec<(u64, u64)> 
                 connected = false;
             }
             3 if slow => s.extend([(13, 1), (1, 0), (0, 0), (2, 0), (14, 0), (6, 1)]),
-            4 if slow => s.extend([(16, 0), (11, 0), (2, 0), (6, 1), (8, 1), (6, 1), (3, 0), (7, 1), (14, 0)]),
+            4 if slow => {
+                s.extend([(16, 0), (11, 0), (2, 0), (6, 1), (8, 1), (6, 1), (3, 0), (7, 1)]);
+                // the user may keep a clone of the new stream's sink while the old task finishes, and ask again
+                let keep = rng.chance(50);
+                if keep {
+                    s.push((20, 0));
+                }
+                s.push((14, 0));
+                if keep {
+                    s.push((rng.pick(&[10u64, 1, 21, 17]), 0));
+                }
+            }
+            // the remote closes slowly, the user closes, a new stream is set up and closed slowly by the remote too;
+            // then only the OLD task finishes: its shutdown notice meets the new stream whose task is shutting down
+            5 if slow => s.extend([
+                (13, 1), (11, 0), (2, 0), (6, 1), (8, 1), (6, 1), (3, 0), (7, 1), (13, 1), (14, 1), (2, 0), (6, 1), (8, 1),
+                (6, 1), (3, 0), (7, 1), (14, 0),
+            ]),
             _ => s.extend([(13, 0), (2, 0)]),
         }
     }
@@ -719,6 +870,71 @@ fn gen_case(rng: &mut Rng, thorough: bool) -> Vec<u64> {
     c
 }
 
+/// lazy-user case built around leftovers: a stream is opened and seen by the user, the remote sends
+/// notifications that the user does not collect, the stream ends and a new one is set up before the user
+/// polls again: the leftovers must not be handed out in the new stream period.
+fn gen_lstale(rng: &mut Rng) -> Vec<u64> {
+    let auto_accept = rng.chance(50);
+    let cap = rng.pick(&[3u64, 5, 5, 7]);
+    let p = rng.below(NP as u64);
+    let mut ops: Vec<[u64; 3]> = vec![[0, p, 0]];
+    let open_seq = |rng: &mut Rng, ops: &mut Vec<[u64; 3]>| {
+        let seq: Vec<(u64, u64)> = match rng.below(3) {
+            0 => {
+                let mut v = vec![(10, 0), (3, 0), (7, 1), (2, 0), (6, 1)];
+                if !auto_accept {
+                    v.extend([(25, 0), (8, 1)]);
+                }
+                v.push((6, 1));
+                v
+            }
+            1 => vec![(2, 0), (6, 1), (25, 0), (8, 1), (6, 1), (3, 0), (7, 1)],
+            _ => {
+                let mut v = vec![(10, 0), (2, 0), (6, 1), (3, 0)];
+                if !auto_accept {
+                    v.extend([(25, 0), (8, 1)]);
+                }
+                v.extend([(6, 1), (7, 1)]);
+                v
+            }
+        };
+        for (k, a) in seq {
+            ops.push([k, if k == 25 { 0 } else { p }, a]);
+        }
+    };
+    let rounds = rng.range(2, 3);
+    for r in 0..rounds {
+        open_seq(rng, &mut ops);
+        // the user collects everything queued so far: Closed of the previous round, Validate, Opened
+        for _ in 0..rng.range(0, 4) {
+            ops.push([25, 0, 0]);
+        }
+        for _ in 0..rng.range(1, 3) {
+            ops.push([17, p, 0]);
+            if rng.chance(15) {
+                ops.push([25, 0, 0]);
+            }
+        }
+        if r + 1 == rounds {
+            break;
+        }
+        match rng.below(4) {
+            0 => ops.push([11, p, 0]),
+            1 => ops.push([13, p, 0]),
+            2 => ops.push([18, p, 0]),
+            _ => ops.extend([[1, p, 0], [0, p, 0]]),
+        }
+    }
+    for _ in 0..rng.range(4, 10) {
+        ops.push([25, 0, 0]);
+    }
+    let mut c = vec![auto_accept as u64, 1, cap << 3, ops.len() as u64];
+    for o in ops {
+        c.extend(o);
+    }
+    c
+}
+
 /// lazy-user case: a small user event channel, the user polls the handle only now and then
 fn gen_lcase(rng: &mut Rng, thorough: bool) -> Vec<u64> {
     let base = gen_case(rng, thorough);
@@ -728,7 +944,7 @@ fn gen_lcase(rng: &mut Rng, thorough: bool) -> Vec<u64> {
     let mut ops: Vec<[u64; 3]> = Vec::new();
     for i in 0..nops {
         let o = [base[4 + 3 * i], base[5 + 3 * i], base[6 + 3 * i]];
-        if (19..=24).contains(&o[0]) {
+        if (19..=24).contains(&o[0]) || o[0] == 26 || o[0] == 27 {
             continue;
         }
         ops.push(o);
@@ -766,26 +982,36 @@ pub fn main(args: &Args) {
     } else if let Some(d) = args.str("corpus") {
         stored = read_cases(Path::new(d));
     }
-    let run = |c: &[u64]| -> Vec<u64> {
+    let run = |c: &[u64]| -> (Vec<u64>, Vec<u64>) {
         catch_unwind(AssertUnwindSafe(|| run_case(c)))
-            .unwrap_or(Some(vec![PANIC_MARK]))
-            .unwrap_or(vec![0])
+            .unwrap_or(Some((vec![PANIC_MARK], c.to_vec())))
+            .unwrap_or((vec![0], c.to_vec()))
     };
     for c in stored.iter() {
-        let sleeps = c.len() >= 4 && (0..c[3] as usize).any(|i| c.get(4 + 3 * i) == Some(&19));
+        let sleeps = c.len() >= 4 && c[0] != hs::TAG && (0..c[3] as usize).any(|i| matches!(c.get(4 + 3 * i), Some(&19) | Some(&28)));
         if sleeps && !thorough && args.str("replay").is_none() {
             continue; // real 5 s sleeps: thorough tier only
         }
-        let t = run(c);
-        out.emit(c, &t);
+        let (t, ran) = run(c);
+        out.emit(&ran, &t);
     }
     if args.str("replay").is_some() {
         return;
     }
     for _ in 0..ncases {
         let mut r = rng.fork();
-        let c = if r.chance(25) { gen_lcase(&mut r, thorough) } else { gen_case(&mut r, thorough) };
-        let t = run(&c);
-        out.emit(&c, &t);
+        let c = if r.chance(8) {
+            hs::gen_case(&mut r)
+        } else if r.chance(25) {
+            if r.chance(12) {
+                gen_lstale(&mut r)
+            } else {
+                gen_lcase(&mut r, thorough)
+            }
+        } else {
+            gen_case(&mut r, thorough)
+        };
+        let (t, ran) = run(&c);
+        out.emit(&ran, &t);
     }
 }
